@@ -139,6 +139,27 @@ func init() {
 			pcs = append(pcs, pc)
 			metas = append(metas, meta{kinds})
 		}
+		// fractional bounds on INTEGER members in every spelling (inclusive, numeric exclusive, boolean exclusive), values on
+		// both neighbouring integers: the bound is rounded when the check is emitted, once per wire
+		{
+			sch := M{"type": "object", "properties": M{
+				"a": M{"type": "integer", "minimum": 1.5, "exclusiveMinimum": true}, "b": M{"type": "integer", "maximum": 9.5, "exclusiveMaximum": true},
+				"c": M{"type": "integer", "minimum": 1.5}, "d": M{"type": "integer", "exclusiveMinimum": 1.5}, "e": M{"type": "integer", "maximum": -2.5},
+				"f": M{"type": "integer", "exclusiveMaximum": -2.5}, "g": M{"type": "integer", "minimum": -0.5, "maximum": 0.5}}}
+			var docs []any
+			var kinds []string
+			for _, kv := range []struct {
+				k string
+				v int
+			}{{"a", 1}, {"a", 2}, {"b", 9}, {"b", 10}, {"c", 1}, {"c", 2}, {"d", 1}, {"d", 2}, {"e", -3}, {"e", -2}, {"f", -3}, {"f", -2}, {"g", 0}, {"g", 1}, {"g", -1}} {
+				docs = append(docs, M{kv.k: kv.v})
+				kinds = append(kinds, "bound")
+			}
+			pc := baseCase("c17-yaml-json", sch, docs, "fractional-integer-bounds")
+			pc.Cfg.ExtraImports = true
+			pcs = append(pcs, pc)
+			metas = append(metas, meta{kinds})
+		}
 		// … and a fixed family with lower-case one-word names under every tag list without `yaml`
 		for _, tags := range [][]string{{"json"}, {"json", "mapstructure"}, {"mapstructure", "json"}, {"json", "toml"}} {
 			sch := M{"type": "object", "required": []any{"name"}, "properties": M{
